@@ -75,6 +75,7 @@ struct call_ctx
     bool dists = false;      // run the integrand with one distribution (the other accumulator specialisation)
     int vexp = 0;            // all integrand values are multiplied by 2^vexp (to reach the subnormal range)
     int jac_pow = 0;
+    bool reload = false;     // VEGAS: the (zero-result) checkpoint goes through its text form before the first iteration
     std::size_t md = 0;      // multi channel: number of coordinates (map dimensions) if different from the number of random numbers
 
     value_spec const& spec() const { return plan[call % plan.size()]; }
@@ -346,6 +347,14 @@ inline void run_vegas(call_ctx<T>& c, E const& engine, hep::vegas_pdf<T> const& 
     c.cfg.d = grid.dimensions();
     c.cfg.bins = grid.bins();
     chk.dimensions(c.cfg.d);
+    if (c.reload)
+    {
+        // a user grid that comes back from a stream is the same grid
+        std::ostringstream o;
+        chk.serialize(o);
+        std::istringstream in(o.str());
+        chk = hep::make_vegas_chkpt<T, E>(in);
+    }
     for (std::size_t N : iters)
     {
         c.cfg.calls = N;
